@@ -53,18 +53,31 @@ def main():
     res['confirmed'] = confirmed
     print('confirm:', res['suite_with_change'], '| demo with change exit', rc1, '| clean exit', rc0, '| confirmed', confirmed)
     # run the registered checks against it
-    rc, o = sh('git -C /repo status --porcelain')
-    if o.strip():
-        print('/repo is not clean, refusing', o)
-        return 2
-    rc, o = sh('git -C /repo apply %s' % diff)
+    via_env = '--in-repo' not in sys.argv
+    if via_env:
+        # the changed tree is the scratch worktree (same HEAD as /repo + the change); /repo itself is left alone so that
+        # other work going on against /repo is not disturbed
+        rc, o = sh('git rev-parse HEAD', cwd=wt)
+        rc2, o2 = sh('git -C /repo rev-parse HEAD')
+        if o.strip() != o2.strip():
+            print('worktree is not at /repo HEAD', o, o2)
+            return 2
+        rc, o = sh('git apply %s' % diff, cwd=wt)
+        cenv = dict(os.environ, EMD_REPO=wt)
+    else:
+        rc, o = sh('git -C /repo status --porcelain')
+        if o.strip():
+            print('/repo is not clean, refusing', o)
+            return 2
+        rc, o = sh('git -C /repo apply %s' % diff)
+        cenv = dict(os.environ)
     if rc:
-        print('patch does not apply to /repo', o)
+        print('patch does not apply', o)
         return 2
     det = {}
     try:
         for c in checks:
-            rc, o = sh('./check %s --tier %s' % (c, tier), cwd=VERIF)
+            rc, o = sh('./check %s --tier %s' % (c, tier), cwd=VERIF, env=cenv)
             lines = [ln for ln in o.splitlines() if ln.startswith('VIOLATION') or ln.startswith('KNOWN-FINDING')]
             det[c] = dict(exit=rc, lines=lines[:4])
             for ln in lines[:2]:
@@ -78,7 +91,10 @@ def main():
                         pass
             print('check', c, 'exit', rc, lines[:3])
     finally:
-        sh('git -C /repo checkout -- .')
+        if via_env:
+            sh('git checkout -- emd', cwd=wt)
+        else:
+            sh('git -C /repo checkout -- .')
     res['checks'] = det
     res['detected'] = any(v['exit'] == 1 for v in det.values())
     dst = os.path.join(VERIF, 'seeded', '%s-%s' % (pid, k))
@@ -87,7 +103,7 @@ def main():
     shutil.copy(demo, os.path.join(dst, 'demo.py'))
     m = json.load(open(meta)) if os.path.exists(meta) else {}
     m.update(breaks_property=pid, confirmed_by_me=res, ran=['suite in scratch worktree with the change', 'demo with/without the change',
-             './check %s --tier %s with the change applied to /repo, then git checkout' % (','.join(checks), tier)])
+             ('EMD_REPO=<scratch worktree at /repo HEAD + the change> ' if via_env else '') + './check %s --tier %s%s' % (','.join(checks), tier, '' if via_env else ' with the change applied to /repo, then git checkout')])
     json.dump(m, open(os.path.join(dst, 'meta.json'), 'w'), indent=1)
     # evidence files were rewritten by the run on the changed tree: restore the committed ones
     sh('git checkout -- evidence', cwd=VERIF)
